@@ -124,6 +124,11 @@ def build_root(root, conc):
               meta={"verif": [1, 2, {"k": "v"}], "name": conc.name})
     if cls != "Signal":
         kw["center_freq"] = conc.cf * conc.funit
+        # labels must be representable: keep center_freq / chan_bw <= 1e8 (float64 leaves
+        # > 7 digits below one channel); absurd pairings like a 1 mHz band at 327 MHz are replaced
+        bw0 = kw["sample_rate"] if cls in ("BasebandSignal", "DualPolarizationSignal") else conc.cbw[0] * conc.cbw[1]
+        if abs(kw["center_freq"].to_value(u.Hz)) > 1e8 * bw0.to_value(u.Hz):
+            kw["center_freq"] = (bw0 * 1e6 * 1.4).to(u.Hz)
         if conc.cf_factor is not None:
             bw1 = kw["sample_rate"] if cls in ("BasebandSignal", "DualPolarizationSignal") else conc.cbw[0] * conc.cbw[1]
             kw["center_freq"] = (bw1 * nchan * conc.cf_factor).to(conc.funit if conc.cf else u.MHz)
